@@ -109,6 +109,15 @@ class ProgramProperty:
     def reductions(self, case):
         """Smaller variants of a case, most aggressive first."""
         steps = case["steps"]
+        # drop whole blocks of steps first (halves, quarters, eighths, ... of everything after the first construction)
+        n = len(steps) - 1
+        size = n // 2
+        while size >= 4:
+            for a in range(1, len(steps), size):
+                c = copy.deepcopy(case)
+                del c["steps"][a:a + size]
+                yield c
+            size //= 2
         # drop one step (queries and mutations; never the first construction)
         for i in range(len(steps) - 1, 0, -1):
             c = copy.deepcopy(case)
